@@ -12,6 +12,9 @@ package main
 //      meanwhile: Resume must not block the pump
 //   10 (C10, C02) the connection drops exactly while the dispatcher is inside ws.Client.Write; after the reconnection
 //      a further request is queued: the outstanding request must not be written a second time
+//   11 (C16, C02) Stop while a ready token is unconsumed; after Start the first request is written exactly once
+//   12 (C16, C01) Stop while a conclusion is still travelling to the callback goroutine; after Start the first callback
+//      receives its own reply
 
 import (
 	"errors"
@@ -307,6 +310,161 @@ func gatedDropDuringWrite() []int64 {
 	return []int64{0, int64(n21), int64(n22)}
 }
 
+// scenario 11 (C16, C02): Stop arrives while a ready token is unconsumed (the pump sits in the application's cancel
+// callback); if the pump then sees the closed request channel first, the token survives in readyForDispatch.  After
+// Start the first request must still be written exactly once.
+func gatedStaleReadyToken() []int64 {
+	installIDGen()
+	twice := int64(0)
+	for try := 0; try < 12; try++ {
+		fake := fakews.NewClient()
+		disp := ocppj.NewDefaultClientDispatcher(ocppj.NewFIFOClientQueue(0))
+		disp.SetTimeout(time.Hour)
+		cl := ocppj.NewClient("cp1", fake, disp, nil, core16.Profile)
+		cl.SetResponseHandler(func(r ocpp.Response, id string) {})
+		cl.SetErrorHandler(func(e *ocpp.Error, d interface{}) {})
+		cl.SetRequestHandler(func(r ocpp.Request, id, action string) {})
+		entered := make(chan struct{}, 4)
+		release := make(chan struct{})
+		var once sync.Once
+		cl.SetOnRequestCanceled(func(id string, r ocpp.Request, e *ocpp.Error) {
+			first := false
+			once.Do(func() { first = true })
+			if first {
+				entered <- struct{}{}
+				<-release
+			}
+		})
+		if err := cl.Start("ws://fake"); err != nil {
+			return []int64{-2}
+		}
+		fake.FailWrite = true
+		setNextID("31")
+		if err := cl.SendRequest(core16.NewDataTransferRequest("v1")); err != nil {
+			return []int64{-3}
+		}
+		select {
+		case <-entered: // request 31 completed (ready token posted), pump held in the callback
+		case <-time.After(2 * time.Second):
+			return []int64{-4}
+		}
+		fake.FailWrite = false
+		stopped := make(chan struct{})
+		go func() { cl.Stop(); close(stopped) }()
+		time.Sleep(20 * time.Millisecond)
+		close(release)
+		select {
+		case <-stopped:
+		case <-time.After(3 * time.Second):
+			return []int64{-8}
+		}
+		for i := 0; i < 400 && disp.IsRunning(); i++ {
+			time.Sleep(500 * time.Microsecond)
+		}
+		fake.TakeWritten()
+		if err := cl.Start("ws://fake"); err != nil {
+			return []int64{-5}
+		}
+		setNextID("32")
+		if err := cl.SendRequest(core16.NewDataTransferRequest("v2")); err != nil {
+			return []int64{-6}
+		}
+		time.Sleep(30 * time.Millisecond)
+		n32 := 0
+		for _, w := range fake.TakeWritten() {
+			if callID(w) == 32 {
+				n32++
+			}
+		}
+		within(2*time.Second, cl.Stop)
+		if n32 != 1 {
+			twice++
+		}
+	}
+	if twice == 0 {
+		return []int64{1, 0}
+	}
+	return []int64{0, twice}
+}
+
+// scenario 12 (C16, C01): Stop arrives while a conclusion is still travelling to the callback goroutine (which sits in
+// an earlier, slow application callback); if the goroutine then sees the stop signal first, the conclusion survives in
+// the channel.  After Start, the first request's callback must receive its own reply.
+func gatedStaleConclusion() []int64 {
+	installIDGen()
+	wrong := int64(0)
+	for try := 0; try < 12; try++ {
+		fake := fakews.NewClient()
+		disp := ocppj.NewDefaultClientDispatcher(ocppj.NewFIFOClientQueue(0))
+		disp.SetTimeout(time.Hour)
+		cp := ocpp16.NewChargePoint("cp1", ocppj.NewClient("cp1", fake, disp, nil, core16.Profile), fake)
+		if err := cp.Start("ws://fake"); err != nil {
+			return []int64{-2}
+		}
+		entered := make(chan struct{}, 2)
+		release := make(chan struct{})
+		setNextID("41")
+		_ = cp.SendRequestAsync(core16.NewDataTransferRequest("v1"), func(r ocpp.Response, e error) {
+			entered <- struct{}{}
+			<-release
+		})
+		time.Sleep(10 * time.Millisecond)
+		setNextID("42")
+		_ = cp.SendRequestAsync(core16.NewDataTransferRequest("v2"), func(r ocpp.Response, e error) {})
+		time.Sleep(10 * time.Millisecond)
+		_ = fake.Inject([]byte(`[3,"41",{"status":"Accepted","data":"r41"}]`))
+		select {
+		case <-entered: // the callback goroutine is held inside callback 41
+		case <-time.After(2 * time.Second):
+			return []int64{-4}
+		}
+		time.Sleep(10 * time.Millisecond)
+		// the reply to 42 is concluded by the OCPP-J layer and handed over: it waits in the channel
+		if !within(2*time.Second, func() { _ = fake.Inject([]byte(`[3,"42",{"status":"Accepted","data":"r42"}]`)) }) {
+			return []int64{-5}
+		}
+		stopped := make(chan struct{})
+		go func() { cp.Stop(); close(stopped) }()
+		time.Sleep(20 * time.Millisecond)
+		close(release)
+		select {
+		case <-stopped:
+		case <-time.After(3 * time.Second):
+			return []int64{-8}
+		}
+		time.Sleep(20 * time.Millisecond)
+		fake.TakeWritten()
+		if err := cp.Start("ws://fake"); err != nil {
+			return []int64{-6}
+		}
+		var mu sync.Mutex
+		got := ""
+		calls := 0
+		setNextID("43")
+		_ = cp.SendRequestAsync(core16.NewDataTransferRequest("v3"), func(r ocpp.Response, e error) {
+			mu.Lock()
+			calls++
+			if dt, ok := r.(*core16.DataTransferConfirmation); ok && dt != nil {
+				got = fmt.Sprint(dt.Data)
+			}
+			mu.Unlock()
+		})
+		time.Sleep(20 * time.Millisecond)
+		within(time.Second, func() { _ = fake.Inject([]byte(`[3,"43",{"status":"Accepted","data":"r43"}]`)) })
+		time.Sleep(30 * time.Millisecond)
+		within(2*time.Second, cp.Stop)
+		mu.Lock()
+		if !(calls == 1 && got == "r43") {
+			wrong++
+		}
+		mu.Unlock()
+	}
+	if wrong == 0 {
+		return []int64{1, 0}
+	}
+	return []int64{0, wrong}
+}
+
 func gatedEval(in []int64) []int64 {
 	switch in[0] {
 	case 7:
@@ -317,6 +475,10 @@ func gatedEval(in []int64) []int64 {
 		return gatedResume()
 	case 10:
 		return gatedDropDuringWrite()
+	case 11:
+		return gatedStaleReadyToken()
+	case 12:
+		return gatedStaleConclusion()
 	}
 	return []int64{-1}
 }
